@@ -16,12 +16,16 @@
 (*                  no update is lost (the counter is 1 + 2 n m)           *)
 (*   syncinst       n routines x m increments of their own slot of one     *)
 (*                  synchronized instance: every slot is m                 *)
+(*   syncmethod     n routines x m calls of a method of one synchronized   *)
+(*                  flavor instance that updates a variable through        *)
+(*                  with-slots: all calls return, the variable is n*m      *)
 (*   gencache       a call held at the yield point of the generic function   *)
 (*                  while the method is redefined (GenCache.tla)           *)
 (*   gencache2      the same with the call held by its own argument, an    *)
 (*                  object whose class hierarchy waits at a gate           *)
 (*   tables         concurrent defvar / defmethod / calls / printing /     *)
-(*                  intern: every routine saw the values it must see       *)
+(*                  intern / printing of fresh symbols: every routine saw   *)
+(*                  the values it must see                                 *)
 (***************************************************************************)
 EXTENDS Integers, Sequences, FiniteSets, TLC, Json
 Trace == ndJsonDeserialize("traces.ndjson")
@@ -34,6 +38,7 @@ ChanOK(e) == /\ Len(e.got) = e.n
 Judge(e) == IF e.st # "ok" THEN "status"
             ELSE CASE e.kind \in {"chan", "select"} -> IF ChanOK(e) THEN "" ELSE "items"
                    [] e.kind = "mutex" -> IF e.x = e.n * e.m THEN "" ELSE "counter"
+                   [] e.kind = "syncmethod" -> IF e.x = e.n * e.m THEN "" ELSE "counter"
                    [] e.kind = "mutexnest" -> IF e.x = 1 + 2 * e.n * e.m THEN "" ELSE "counter"
                    [] e.kind = "syncinst" -> IF Len(e.slots) = e.n /\ \A k \in 1..e.n : e.slots[k] = e.m THEN "" ELSE "slots"
                    \* GenCache.tla: the held call runs the old or the new method, and once both have returned the new method is the
